@@ -312,7 +312,8 @@ def frame_scenarios(rows, t):
                ('target along x, up parallel', lambda c: (axis(c, 'a1', 0), parallel(c, 'a1', 'a2'))),
                ('target along z, up = 0', lambda c: (axis(c, 'a1', 2), zero(c, 'a2'))),
                ('target along y, up = 0', lambda c: (axis(c, 'a1', 1), zero(c, 'a2')))]
-    elif rows == 'rotup':    # (result, from a1, to a2, up a3)
+    elif rows == 'rotup':    # (result, from a1, to a2, up a3); the axis-aligned scenarios first: they are cheap and carry the documented-axes rule
+        sc = [('from along z', lambda c: axis(c, 'a1', 2))] + sc
         sc += [('to = 0', lambda c: zero(c, 'a2')), ('up = 0', lambda c: zero(c, 'a3')), ('up parallel to to', lambda c: parallel(c, 'a2', 'a3')),
                ('to along x, up parallel', lambda c: (axis(c, 'a2', 0), parallel(c, 'a2', 'a3'))), ('from along y', lambda c: axis(c, 'a1', 1)),
                ('from along x', lambda c: axis(c, 'a1', 0))]
@@ -437,6 +438,30 @@ def magnitude_test(c, scaled=False):
     if c.attr == 'ole' and b.op == 'const' and T.const_value(b) in (FLT_MAX, DBL_MAX) and mag(a): return True
     return None
 
+def documented_axes(ctx, kind, rows, t):
+    """the axes the frame builders document, for directions that are neither zero nor parallel.
+    alignZAxisWithTargetDir(target, up): the z row is parallel to target, the x row is perpendicular to target and up
+    (so the y row lies in their plane).  rotationMatrixWithUpDir(from, to, up): from is carried onto a multiple of to, and the
+    image of the world up axis (0,1,0) lies in the plane of to and up (it is perpendicular to to x up)."""
+    def vec(base): return [(ctx.reduce(P.patom(ctx.key(agg.slot_in(base, i, t)))), ONE) for i in range(3)]
+    def neg(r): return (P.pneg(r[0]), r[1])
+    def dot(a, b):
+        acc = (P.pconst(0), ONE)
+        for x, y in zip(a, b): acc = ctx.radd(acc, ctx.rmul(x, y))
+        return acc
+    def cross(a, b):
+        return [ctx.radd(ctx.rmul(a[1], b[2]), neg(ctx.rmul(a[2], b[1]))), ctx.radd(ctx.rmul(a[2], b[0]), neg(ctx.rmul(a[0], b[2]))), ctx.radd(ctx.rmul(a[0], b[1]), neg(ctx.rmul(a[1], b[0])))]
+    if kind == 'align':
+        tg, up = vec('a1'), vec('a2')
+        if not all(ctx.rzero(c) for c in cross(rows[2], tg)): return 'the z axis row is not parallel to the target direction'
+        if not ctx.rzero(dot(rows[0], tg)) or not ctx.rzero(dot(rows[0], up)): return 'the x axis row is not perpendicular to both the target and the up direction (the y axis leaves their plane)'
+        return None
+    fr, to, up = vec('a1'), vec('a2'), vec('a3')
+    img = [dot(fr, [rows[i][j] for i in range(3)]) for j in range(3)]          # from * M
+    if not all(ctx.rzero(c) for c in cross(img, to)): return 'the image of fromDir is not parallel to toDir'
+    if not ctx.rzero(dot(rows[1], cross(to, up))): return 'the image of the world up axis (0,1,0) does not lie in the plane of toDir and upDir: the result is a rotation taking fromDir to toDir, but with the wrong twist about toDir'
+    return None
+
 def check_frame(rep, oid, S, m, t, where):
     E, sz, lt = ELEM[t]
     outs = [S.out('a0', i * sz, sz, lt) for i in range(16)]
@@ -468,6 +493,8 @@ def check_frame(rep, oid, S, m, t, where):
                     last = [got[3], got[7], got[11], got[15]]
                     if not (ctx.rzero(last[0]) and ctx.rzero(last[1]) and ctx.rzero(last[2]) and ctx.requal(last[3], (P.pconst(1), ONE))):
                         e = 'last column is not (0,0,0,1)'
+                if not e and m['rows'] in ('align', 'rotup') and (scname == 'generic' or scname.startswith('from along')):
+                    e = documented_axes(ctx, m['rows'], rows, t)
                 if e:
                     bad = 'scenario "%s": %s' % (scname, e); break
             detail.append(scname)
